@@ -13,6 +13,7 @@ pub mod c05;
 pub mod c06;
 pub mod c07;
 pub mod c08;
+pub mod c09;
 pub mod c10;
 pub mod c11;
 pub mod c12;
@@ -37,6 +38,7 @@ pub fn all() -> Vec<PropDef> {
         c06::def(),
         c07::def(),
         c08::def(),
+        c09::def(),
         c10::def(),
         c11::def(),
         c12::def(),
